@@ -42,6 +42,10 @@ def circ_line(ev, snapshot=False):
     parts.append("BUILD_FLAGS=%s" % BF[ev["bf"]])
     parts.append("PURPOSE=%s" % ev["pur"])
     parts.append("TIME_CREATED=2030-01-01T12:00:0%d.000000" % (ev["id"] % 10))
+    if ev["pur"] == "HS_CLIENT_REND" and ev["st"] in ("LAUNCHED", "EXTENDED"):
+        # keywords come and go with the circuit's progress: the view holds those of the latest line only
+        parts.append("HS_STATE=HSCR_CONNECTING")
+        parts.append("REND_QUERY=abcdefghijklmnop")
     if ev["st"] in ("CLOSED", "FAILED"):
         parts.append("REASON=FINISHED" if ev["st"] == "CLOSED" else "REASON=TIMEOUT")
     return " ".join(parts)
